@@ -121,6 +121,7 @@ class Interp:
         self.used_summaries = set()
         self.used_externals = set()
         self.functions_executed = set()
+        self.loop_cuts_widened = set()
         from . import models
         models.install(self)
         from . import cryptomodel
